@@ -58,6 +58,10 @@ AUTH = {
     "ulen0": b"\x01\x00\x01p",
     "plen0": b"\x01\x01u\x00",
     "long": b"\x01\xff" + b"u" * 255 + b"\xff" + b"p" * 255,
+    # ULEN / PLEN count octets: multi-byte UTF-8 and octets that are no UTF-8 at all
+    "utf8": b"\x01\x02\xc3\xbc\x03p\xc3\xa4",
+    "utf8_long": b"\x01\x06\xe2\x82\xac\xe2\x82\xac\x04\xf0\x9f\x94\x91",
+    "not_utf8": b"\x01\x01\xfc\x02p\xe4",
     "trunc": b"\x01\x01u\x01",
 }
 
@@ -360,10 +364,18 @@ def judge(spec, cuts, obs, whole, t: Tally):
             {"replies": ref["replies"], "then": want_rest}, {"why": why, "out": obs["out"], "closed": obs["closed"]})
     t.judge("trailing_relayed_once_in_order", relayed == ref["trailing"] and obs["child"] == ref["trailing"], feats, case,
             ref["trailing"][-60:], {"to_server": relayed[-60:], "to_child": obs["child"][-60:]})
-    if ref["creds"] is not None and obs["auth"]:
+    if ref["creds"] is not None and obs["auth"] and _is_utf8(ref["creds"][0]) and _is_utf8(ref["creds"][1]):
         u, p, valid = obs["auth"][0]
         same = u.encode("utf-8", "surrogateescape") == ref["creds"][0] and p.encode("utf-8", "surrogateescape") == ref["creds"][1]
         t.judge("credentials_parsed_exactly", same and len(obs["auth"]) == 1, feats, case, ref["creds"], obs["auth"])
+
+
+def _is_utf8(b):
+    try:
+        b.decode("utf-8")
+        return True
+    except UnicodeDecodeError:
+        return False  # how such octets are shown to the socks5_auth hook is not part of the property
 
 
 def run_item(item, t: Tally):
